@@ -217,14 +217,7 @@ def one_history(ctx, hist_no, steps):
                         "block_views_ok": views_ok, "membership_ok": mem_ok},
                        "CFG differs from a set after %r" % line)
             return False
-    out = core.lean_batch("cfg", lines)
-    for i, (a, b) in enumerate(zip(impl_out, out)):
-        if a != b:
-            ctx.tie_broken.append("correspondence:cfg history %d step %d "
-                                  "line=%r impl=%s lean=%s"
-                                  % (hist_no, i, lines[i], a[:80], b[:80]))
-            return False
-    ctx.traces += len(lines) - 1
+    ctx.tie.add("history %d" % hist_no, lines, impl_out)
     if hist_no < 2:
         ctx.sample({"script": script[:12], "final": impl_out[-1][:200]})
     return True
@@ -238,18 +231,22 @@ def run(ctx):
                 "memberships, in/out edges per node, block views) vs a plain "
                 "set and vs the Lean model; non-trivial = distinct (op, "
                 "size before, size after, exception)")
+    ctx.tie = core.BatchTie(ctx, "cfg", "cfg")
     n = ctx.scale(150, 6000)
     for h in range(n):
         if not one_history(ctx, h, ctx.scale(40, 60)):
             if len(ctx.violations) >= 3:
                 break
+    ctx.tie.flush()
 
 
 def search(ctx, broken):
+    ctx.tie = core.BatchTie(ctx, "cfg", "cfg")
     for h in range(2000):
         one_history(ctx, 10**6 + h, 60)
         if ctx.violations:
             break
+    ctx.tie.flush()
 
 
 def replay(ctx, data):
